@@ -4,6 +4,7 @@
 -/
 import PicoSVG.Model.Path
 import PicoSVG.Model.Arc
+import PicoSVG.Model.ShapeCmds
 
 namespace PicoSVG
 
@@ -132,14 +133,11 @@ def rectPath (x y w h rx0 ry0 : Float) : Except PyErr String := do
     [('Z', [])]
   print cmds
 
-def ellipsePath (rx ry cx cy : Float) : Except PyErr String :=
-  print [('M', [cx + rx, cy]), ('A', [rx, ry, 0, 1, 1, cx - rx, cy]),
-         ('A', [rx, ry, 0, 1, 1, cx + rx, cy]), ('Z', [])]
+def ellipsePath (rx ry cx cy : Float) : Except PyErr String := print (ShapeCmds.ellipseCmds rx ry cx cy)
 
 def circlePath (r cx cy : Float) : Except PyErr String := ellipsePath r r cx cy
 
-def linePath (x1 y1 x2 y2 : Float) : Except PyErr String :=
-  print [('M', [x1, y1]), ('L', [x2, y2])]
+def linePath (x1 y1 x2 y2 : Float) : Except PyErr String := print (ShapeCmds.lineCmds x1 y1 x2 y2)
 
 def polygonPath (points : String) : String := if points.isEmpty then "" else "M" ++ points ++ " Z"
 def polylinePath (points : String) : String := if points.isEmpty then "" else "M" ++ points
